@@ -66,7 +66,11 @@ fn one(out: &mut Out, orig: &Multiaddr, obs: &Multiaddr) {
 
 pub fn run(args: &Args, out: &mut Out) {
     if let Some(cases) = args.replay_cases() {
-        for (i, (_, ops)) in cases.iter().enumerate() {
+        for (i, (hdr, ops)) in cases.iter().enumerate() {
+            if hdr.iter().any(|t| t == "id=1") {
+                crate::c13b::replay_case(out, i as u64, ops);
+                continue;
+            }
             out.case(i as u64, "replay nt=1");
             for op in ops {
                 let o = parse_tok(&op[1]);
@@ -139,10 +143,12 @@ pub fn run(args: &Args, out: &mut Out) {
         out.end();
         idx += 1;
     }
+    // second part: identify's NewExternalAddrCandidate events (cases marked id=1)
+    crate::c13b::run(args, out, idx);
 }
 
 /// inverse of `maddr_tok` for the components this harness generates (replay only)
-fn parse_tok(tok: &str) -> Multiaddr {
+pub(crate) fn parse_tok(tok: &str) -> Multiaddr {
     let mut a = Multiaddr::empty();
     if tok == "-" {
         return a;
